@@ -168,6 +168,7 @@ pub fn main() -> i32 {
     let mut seed: u64 = 1;
     let mut replay: Option<Vec<usize>> = None;
     let mut maxsteps = 20000usize;
+    let mut delays: Vec<(usize, usize)> = Vec::new();
     let mut batches = 0usize;
     for l in read_lines() {
         let w: Vec<&str> = l.split_whitespace().collect();
@@ -179,6 +180,8 @@ pub fn main() -> i32 {
             ["seed", n] => seed = n.parse().unwrap(),
             ["maxsteps", n] => maxsteps = n.parse().unwrap(),
             ["schedule", rest @ ..] => replay = Some(rest.iter().map(|x| x.parse().unwrap()).collect()),
+            // `delay t<k> <n>`: thread <k> is not scheduled during the first <n> steps (unless nothing else can run)
+            ["delay", t, n] => delays.push((t[1..].parse().unwrap(), n.parse().unwrap())),
             [t, rest @ ..] if t.starts_with('t') => {
                 let k: usize = t[1..].parse().unwrap();
                 while scripts.len() <= k { scripts.push(Vec::new()); }
@@ -260,9 +263,15 @@ pub fn main() -> i32 {
     let mut rng = Rng(seed.wrapping_mul(0x9E3779B97F4A7C15) | 1);
     let mut pos = 0usize;
     let status = s.run(
-        |enabled, _step, g| {
+        |enabled, step, g| {
             if let Some(i) = enabled.iter().position(|&t| g.threads[t].pending.as_ref().map(|p| p.name == "start").unwrap_or(false)) {
                 return i;
+            }
+            if replay.is_none() && !delays.is_empty() {
+                let ok: Vec<usize> = (0..enabled.len()).filter(|&i| !delays.iter().any(|&(t, n)| t == enabled[i] && step < n)).collect();
+                if !ok.is_empty() {
+                    return ok[rng.below(ok.len())];
+                }
             }
             match &replay {
                 Some(r) => {
